@@ -24,7 +24,7 @@ func init() {
 		Rule: "the daemon starts on an events output that already holds 0-3 earlier events (restart); 2-6 sessions with 0-6 actions each delivered as bursts on both pipes at once (everything within 0-300 ms of simulated time, taped chunking / short reads / buffer sizes), " +
 			"schedule policies random / PCT / biased / run-to-block with a scheduling point inside every output write and between every write and hand-off; monitor per write call: exactly one JSON event + newline, " +
 			"no event written twice, every UserAction preceded by the UserLogin with the same subjects.pid; afterwards the file content (O_APPEND / no-O_APPEND semantics of the simulated file) keeps the earlier events and consists of whole JSON lines; thorough tier additionally under the race detector; " +
-			"l3-stalled-output: one output write (taped, among the first) stalls for 1-9 simulated seconds (slow or hung disk) while a session that held 30-540 events gets its login and another session is busy; same monitors; " +
+			"in an eighth of the l3-bursts runs one output write fails once (the daemon stops; order and framing of what was and still is written are judged); l3-stalled-output: one output write (taped, among the first) stalls for 1-9 simulated seconds (slow or hung disk) while a session that held 30-540 events gets its login and another session is busy; same monitors; " +
 			"non-trivial = both pipelines wrote and at least one preemption happened; distinct = distinct (history hash, schedule hash)",
 		Quick: 8000, Thorough: 250000,
 		Race: true, RaceQuick: 96, RaceThorough: 8000,
@@ -139,6 +139,12 @@ func scnC10gen(level int, stalled bool) scenarioFn {
 		if stalled && p.disk != nil {
 			p.disk.StallAt, p.disk.StallFor = stallAt, stallFor
 		}
+		// one output write may fail once (a full disk for an instant): the daemon stops (C08), and
+		// what it has written and still writes while stopping keeps the order and the framing
+		failOnce := level == 3 && !stalled && rc.Spec.Choose(8, "write.fail.once") == 7
+		if failOnce {
+			p.disk.FailAt, p.disk.FailAll = 1+rc.Spec.Choose(12, "write.fail.at"), false
+		}
 		ok := p.Run(p.worldDone, 6*time.Second+2*stallFor, 100*time.Millisecond, 2000000)
 		if ok && !rc.Failed() {
 			ok = p.Run(nil, rc.SimNow()+3*time.Second, 100*time.Millisecond, 2000000)
@@ -159,7 +165,7 @@ func scnC10gen(level int, stalled bool) scenarioFn {
 			rc.Abort("step budget exhausted: %v", rc.Sim.Live())
 			return
 		}
-		if !rc.Failed() && (p.Returned || p.ReadDone) {
+		if !rc.Failed() && (p.Returned || p.ReadDone) && !(failOnce && p.disk.Calls >= p.disk.FailAt) {
 			rc.Abort("system under test stopped during a fault-free history: %v %v", p.RetErr, p.ReadErr)
 		}
 		if level == 3 && !rc.Failed() {
